@@ -138,4 +138,54 @@ theorem malformed_reports_error (env : Env) (id text : String) (hE : EnvOk env t
   | none => exact hno (ParseTyped.never_silent env id text hE r h hast)
   | some a => exact hnd (clean_tree_derives env id text hE w hl r h (by rw [hast]; rfl) hno)
 
+theorem lexColsOf_complete (T : Tables) (hL : LrTerm.LexProg T) {i : List Char} {p : Nat} {w : List Nat}
+    (h : LexCols T i p w) : ∀ f, i.length < f → lexColsOf T f i p = some w := by
+  induction h with
+  | eof hn =>
+    intro f hf
+    cases f with
+    | zero => omega
+    | succ f => unfold lexColsOf; rw [hn]
+  | tok hn hc _ ih =>
+    rename_i i p t r c w
+    intro f hf
+    cases f with
+    | zero => omega
+    | succ f =>
+      unfold lexColsOf
+      rw [hn]
+      dsimp only
+      rw [hc]
+      dsimp only
+      have := hL _ _ _ _ _ hn
+      rw [ih f (by omega)]
+      rfl
+
+/-- **For every text, one of the two**: its token sequence is derivable from the accepting production
+    of the grammar — or the result of the model's `add_content` carries an Error diagnostic. (No
+    assumption that the text lexes: an unlexable text cannot be accepted without an Error.) -/
+theorem derivable_or_error (env : Env) (id text : String) (hE : EnvOk env text.toList)
+    (r : FileResult) (h : addContentE Driver.Parse.tables env id text = .ok r) :
+    (∃ w, lexColsOf Driver.Parse.tables (text.toList.length + 1) text.toList 0 = some w ∧ Derives Driver.Parse.tables w)
+      ∨ Typed.hasError r.diags := by
+  by_cases hno : Typed.hasError r.diags
+  · exact Or.inr hno
+  · left
+    cases hast : r.ast with
+    | none => exact absurd (ParseTyped.never_silent env id text hE r h hast) hno
+    | some a =>
+      have h' := h
+      unfold addContentE at h'
+      obtain ⟨⟨v, hv⟩, hd⟩ := ParseTyped.finishE_tree env id _ _ r h' (by rw [hast]; rfl)
+      have h2 := LrTyped.parse_end_ok Driver.Parse.tables LrSafe.cert LrTyped.tt env
+        (LrSafe.certFacts _ _ LrSafe.cert_ok) ParseTyped.tyFacts_run text.toList (parseFuel text)
+      rw [hv] at h2
+      have hrec : (parseLoop Driver.Parse.tables env { input := text.toList } (parseFuel text)).1.recovered = false := by
+        cases hr : (parseLoop Driver.Parse.tables env { input := text.toList } (parseFuel text)).1.recovered with
+        | false => rfl
+        | true => exact absurd (by rw [hd]; exact h2.2 hr) hno
+      have hlc := LrHist.accepted_lexcols Driver.Parse.tables env errCol_run text.toList (parseFuel text) v hv hrec
+      have hder := ParseSound.accepted_derives_run env text (parseFuel text) v hv hrec
+      exact ⟨_, lexColsOf_complete _ LrTerm.lexProg_run hlc _ (Nat.lt_succ_self _), hder⟩
+
 end Aidl.Props.C03Complete
